@@ -20,6 +20,11 @@ def obligations(tier):
         ch("hop_dfxp_end", "harness.C08_chain", timeout=T, functions=("Caption.format_end", "DFXPReader._convert_timestamp_to_microseconds"), bounds="end attribute text for every instant in [0, 24 h)"),
         ch("hop_sami", "harness.C08_chain", timeout=T, functions=("SAMIWriter._recreate_p_tag", "_recreate_blank_tag", "SAMIReader._translate_lang"), bounds="2 cues with arbitrary instants (each spanning a millisecond boundary, separated by one): sync placement -> serialisation contract -> sync reading"),
         ch("text_hop", "harness.C08_chain", timeout=T, functions=("SRT/WebVTT/MicroDVD write() then read()",), bounds="a text line of 1-3 arbitrary printable code points through write+read of the three pure-Python formats (markup syntax of WebVTT excluded: C03+C04)"),
+        ch("text_hop_vtt_amp", "harness.C08_chain", timeout=T, functions=("WebVTTWriter.write", "_encode_illegal_characters", "WebVTTReader.read", "_decode"), bounds="text '&' + 3 arbitrary printable code points (entity-looking text) through the WebVTT hop: exactly one level of references is decoded"),
+        ch("text_hop_sami2" if q else "text_hop_sami3", "harness.C08_chain", timeout=T if q else 3 * T, functions=("SAMIWriter._recreate_text/_encode", "SAMIParser.feed", "SAMIReader.read/_translate_tag"), exhaustive=True, bounds=f"text 'x' + {'two' if q else 'three'} characters over & ; > < a # space through the SAMI hop (real SAMIParser; tree builder html.parser)"),
+        smt("mdvd_read_start", "smt.C01_fp", "microdvd_read_public", args=dict(fps_text="25.0", which="start", nmax=90000000), timeout=600, engine="E2 fplia (AST of read() + inlined helpers -> QF_LIA, z3)"),
+        smt("mdvd_read_end", "smt.C01_fp", "microdvd_read_public", args=dict(fps_text="25.0", which="end", nmax=90000000), timeout=600, engine="E2 fplia (AST of read() + inlined helpers -> QF_LIA, z3)"),
+        smt("mdvd_write", "smt.C02_fp", "microdvd_write", timeout=600, engine="E2 fplia (AST -> QF_LIA, z3)"),
         smt("algebra", "smt.C08_algebra", "algebra", timeout=300, engine="z3 LIA (constant div/mod)"),
     ]
     return obs
@@ -28,7 +33,7 @@ def obligations(tier):
 ASSUME = [
     "chains are not enumerated: each format's hop is shown to act on a cue as (R_f(start), R_f(end), N(text)); idempotence, absorption (R_frame o R_ms = R_frame = R_ms o R_frame) and monotonicity of the R maps, decided by z3 over [0, 24 h), give 'coarsest resolution on the chain' and 'a second pass changes nothing' for chains of any length",
     "DFXP and SAMI hops are compositions of the real writer kernel and the real reader kernel through the serialisation contract (attribute text handed over verbatim, bs4/lxml outside); text for DFXP/SAMI is C03 composed with C04",
-    "one symbolic instant per contract; MicroDVD float kernels replaced by their integer contracts proved by E2 in C01/C02; cues whose start and end fall into frame 0 ({0}{0} is the frame-rate header) or into one millisecond for SAMI, and cue pairs that collapse onto equal times after truncation, are outside (C02's merge clause)",
+    "one symbolic instant per contract; MicroDVD float kernels replaced in the hop obligations by their integer contracts, which the mdvd_read_*/mdvd_write obligations (E2) decide on the current source; cues whose start and end fall into frame 0 ({0}{0} is the frame-rate header) or into one millisecond for SAMI, and cue pairs that collapse onto equal times after truncation, are outside (C02's merge clause)",
 ]
 
 if __name__ == "__main__":
